@@ -11,6 +11,7 @@ import (
 	"github.com/MichaelMure/git-bug/cache"
 	_select "github.com/MichaelMure/git-bug/commands/select"
 	"os"
+	"path/filepath"
 	"strings"
 
 	"github.com/MichaelMure/git-bug/entities/bug"
@@ -454,6 +455,54 @@ func session(out *hx.Writer, round int) {
 			if L > 0 && L <= 12 {
 				queryComment(alter(cr.combined[:L]))
 			}
+		}
+	}
+	// a bug goes away behind the cache's back (removed below it while it was closed) and the cache is rebuilt because one of its
+	// files is missing: the population is what git holds now, and a prefix the gone bug shared with another names that one alone
+	hx.Must(c.Close())
+	gone := bugs[1]
+	r3, err := repository.OpenGoGitRepo(dir, "git-bug", nil)
+	hx.Must(err)
+	hx.Must(bug.Remove(r3, gone.Id()))
+	hx.Must(r3.Close())
+	_ = os.Remove(filepath.Join(dir, ".git", "git-bug", "cache", "identities"))
+	r4, err := repository.OpenGoGitRepo(dir, "git-bug", nil)
+	hx.Must(err)
+	c, err = hx.OpenCache(r4)
+	hx.Must(err)
+	var left []*bug.Bug
+	for _, b := range bugs {
+		if b.Id() != gone.Id() {
+			left = append(left, b)
+		}
+	}
+	for k := range bugIdx {
+		delete(bugIdx, k)
+	}
+	for k := range commentIdx {
+		delete(commentIdx, k)
+	}
+	bugPop, comments = nil, nil
+	var crefs2 []cref
+	for i, b := range left {
+		bugIdx[b.Id().String()] = i + 1
+		bugPop = append(bugPop, digits(b.Id().String()))
+	}
+	for i, b := range left {
+		for _, cm := range b.Compile().Comments {
+			comments = append(comments, comment{Bug: i + 1, Op: digits(cm.TargetId().String())})
+			crefs2 = append(crefs2, cref{combined: cm.CombinedId().String(), idx: len(comments)})
+			commentIdx[cm.CombinedId().String()] = len(comments)
+		}
+	}
+	out.Put(map[string]interface{}{"ev": "Pop", "bugs": bugPop, "idents": identPop, "comments": comments})
+	for _, cr := range crefs2 {
+		out.Put(map[string]interface{}{"ev": "Combined", "comment": cr.idx, "combined": digits(cr.combined)})
+	}
+	short(queryEntity, bugIds)
+	for _, cr := range crefs { // the comments of before, those of the gone bug among them
+		for _, L := range []int{1, 2, 3, 4, 6, 7, 10, 64} {
+			queryComment(cr.combined[:L])
 		}
 	}
 }
